@@ -96,6 +96,13 @@ def programs(tier: str):
             }
     for o in _node_opts(NAMES):
         yield {"nodes": [{"opt": list(o), "parent": None, "place": "root"}]}
+    # own loggers given as directly constructed Logger objects (a registered namesake exists too)
+    for a in _node_opts(["a"], traces=(0,)):
+        for b in _node_opts(["b"], traces=(0,)):
+            if not (a[0] or b[0]):
+                continue
+            for place in ("inline", "spawn"):
+                yield {"nodes": [{"opt": list(a), "parent": None, "place": "root"}, {"opt": list(b), "parent": 0, "place": place}], "direct_loggers": True}
     for a in _node_opts(NAMES):
         for b in _node_opts(NAMES):
             for place in ("inline", "spawn"):
@@ -339,7 +346,20 @@ def execute(program, ch: Chooser) -> Result:  # noqa: C901, PLR0915
     async def run_node(i: int) -> None:
         lg, tr, name = nodes[i]["opt"]
         kwargs: dict = {"completion": make_cb(i)}
-        if lg:
+        if lg and program.get("direct_loggers"):
+            # a Logger object constructed directly (not the registry's instance for its name, which
+            # also exists): records must go through THIS object - a logger-level filter stamps them
+            logging.getLogger(f"own.n{i}")  # the registered namesake
+            direct = logging.Logger(f"own.n{i}", level=logging.DEBUG)
+            direct.addHandler(_cap)
+
+            def stamp(record, _i=i):
+                record.via_direct = _i
+                return True
+
+            direct.addFilter(stamp)
+            kwargs["logger"] = direct
+        elif lg:
             kwargs["logger"] = logging.getLogger(f"own.n{i}")
         if tr == 1:
             kwargs["trace_id"] = f"trace-n{i}-100%s"
@@ -415,6 +435,10 @@ def execute(program, ch: Chooser) -> Result:  # noqa: C901, PLR0915
                 continue
             if r.levelno != c["level"]:
                 viols.append(viol("level", witness, c["level"], r.levelno))
+            if program.get("direct_loggers") and i is not None and expected_logger(i).startswith("own.n"):
+                owner_node = int(expected_logger(i)[5:])
+                if getattr(r, "via_direct", None) != owner_node:
+                    viols.append(viol("logger", f"{witness}/not-the-given-logger-object", f"the Logger object given to scope n{owner_node}", f"another logger named {r.name}"))
             if r.name != expected_logger(i):
                 viols.append(viol("logger", f"{witness}/{'nested' if i is not None and nodes[i]['parent'] is not None else 'top'}", expected_logger(i), r.name))
             text = r.getMessage()
